@@ -7,7 +7,7 @@ ID = "C07"
 THEOREMS = "Properties/C07.v"
 HARNESS = ["c07"]
 LEVEL = "proof"
-READY = False
+READY = True
 TRUSTED_BASE = [
     "Coq 8.16.1 kernel (coqc, full .vo build); vm_compute only in the non-vacuity Examples and in the correspondence evaluation",
     "no axioms: Print Assumptions reports 'Closed under the global context' for every theorem of Properties/C07.v",
@@ -22,7 +22,9 @@ ASSUMPTIONS = [
     "sections end by commit() or abort() of MPCalContext (a body returning another error kills the archetype while it holds its locks: outside the statement)",
     "each sharer binds its own MakeLocalShared() handle per variable (as systems/raftkvs/bootstrap/server.go does)",
 ]
-RULE = ("cases = scripted schedules from one PRNG (VERIF_SEED): 2-5 sharers, 1-4 LocalSharedManager variables (number or "
+RULE = ("(plus 3 / 25 genuinely concurrent stress runs as a search aid: ticket counter + unit transfers between accounts in random "
+        "acquisition order, oracle: no lost update, sum preserved, termination) "
+        "cases = scripted schedules from one PRNG (VERIF_SEED): 2-5 sharers, 1-4 LocalSharedManager variables (number or "
         "number->number function, some wrapped in resources.Persistent over in-memory badger), 10-70 driver steps "
         "(begin / read / write / index read / index write / read-increment / commit / voluntary abort / per-variable releases in "
         "scripted order interleaved with other sharers (api mode) / GetState), lock timeout 2-4 ms; mode api drives the "
@@ -151,10 +153,39 @@ def gen_case(rng, tier, forced_mode=None):
     return {"mode": mode, "nsh": nsh, "timeout_ms": rng.choice([2, 3, 4]), "vars": vars_, "ops": ops}
 
 
+def gen_stress(rng, tier):
+    nv = rng.choice([1, 3, 4, 5])
+    vars_ = [{"init": rng.randint(0, 5), "persist": rng.random() < 0.3}] + \
+            [{"init": 100, "persist": rng.random() < 0.3} for _ in range(nv - 1)]
+    return {"mode": "stress", "nsh": rng.randint(2, 5), "timeout_ms": rng.choice([1, 2]), "vars": vars_,
+            "iters": 50 if tier == "quick" else 400, "seed": rng.randrange(1 << 30), "ops": []}
+
+
+def oracle_stress(case, out):
+    fails = []
+    if (out.get("err") or "").find("hang") >= 0:
+        return [("blocked-forever:stress", "concurrent sharers did not finish: commits %s" % out.get("commits"))]
+    if out.get("err"):
+        return [("crash:stress", out["err"][:200])]
+    commits = out.get("commits") or []
+    final = out.get("final") or []
+    if any(isinstance(x, str) for x in final):
+        return [("blocked-forever:final-snapshot", "GetState after all sections ended did not return: %s" % final)]
+    init = [v["init"] for v in case["vars"]]
+    if final[0] != init[0] + sum(commits):
+        fails.append(("not-serializable:lost-update-stress", "ticket counter %d after %d committed increments from %d" % (final[0], sum(commits), init[0])))
+    if sum(final[1:]) != sum(init[1:]):
+        fails.append(("not-serializable:invariant-stress", "accounts %s do not sum to %d" % (final[1:], sum(init[1:]))))
+    return fails
+
+
 def expand_for_harness(case):
     """inc / iinc are two accesses (read, then write of read+1): the harness is given them as one scripted pair"""
-    return {"id": case["id"], "mode": case["mode"], "nsh": case["nsh"], "timeout_ms": case["timeout_ms"],
-            "vars": case["vars"], "ops": case["ops"]}
+    d = {"id": case["id"], "mode": case["mode"], "nsh": case["nsh"], "timeout_ms": case["timeout_ms"],
+         "vars": case["vars"], "ops": case["ops"]}
+    if case["mode"] == "stress":
+        d["iters"] = case["iters"]; d["seed"] = case["seed"]
+    return d
 
 
 # ------------------------------------------------------------------ python semantics of one access (for the oracle only)
@@ -183,11 +214,54 @@ def canon(v):
 
 # ------------------------------------------------------------------ observation -> flat access list
 
+def full_ops(case, res):
+    """the script plus the wind-down steps the harness appended (each carries its own op)"""
+    ops = list(case["ops"])
+    for r in res[len(case["ops"]):]:
+        ops.append(r["op"])
+    return ops
+
+
+def anomalies(case, out):
+    """outcomes that depend on machine load rather than on the schedule: a timeout although nobody else held the
+    lock (select saw the timer and the free lock ready together), a missed deadline, a step the script could not
+    take after one of those.  Such a case is re-run once before anything is concluded from it."""
+    res = out.get("res") or []
+    holder = {}
+    held = {}
+    n = 0
+    ctx = case["mode"] == "ctx"
+    for op, r in zip(full_ops(case, res), res):
+        name, i = op[0], op[1]
+        if r["st"] in ("hang", "skip"):
+            n += 1
+            continue
+        if name == "acc":
+            v = op[2]
+            if r["st"] == "ok":
+                holder[v] = i; held.setdefault(i, set()).add(v)
+            elif r["st"] == "timeout":
+                if holder.get(v, i) == i:
+                    n += 1
+                if ctx:
+                    for x in held.pop(i, set()):
+                        holder.pop(x, None)
+        elif name in ("crel", "arel"):
+            if holder.get(op[2]) == i:
+                del holder[op[2]]; held[i].discard(op[2])
+        elif name in ("commit", "abort"):
+            for x in held.pop(i, set()):
+                holder.pop(x, None)
+    if any(isinstance(x, str) for x in (out.get("final") or [])):
+        n += 1
+    return n
+
+
 def flatten(case, res):
     """list of steps: dict(op=name, i=, v=, kind=, args=, st=, out=) with inc/iinc split into read + write.
     Only uses what the implementation returned."""
     steps = []
-    for op, r in zip(case["ops"], res):
+    for op, r in zip(full_ops(case, res), res):
         name, i = op[0], op[1]
         st = r["st"]
         if name == "acc":
@@ -220,7 +294,7 @@ def oracle(case, out):
     effect; nothing blocks forever.  Returns list of (signature, what)."""
     fails = []
     res = out.get("res") or []
-    if len(res) != len(case["ops"]):
+    if len(res) < len(case["ops"]):
         return [("harness-output-length", "harness returned %d results for %d ops (%s)" % (len(res), len(case["ops"]), out.get("err")))]
     steps = flatten(case, res)
     init = [canon(v["init"]) for v in case["vars"]]
@@ -474,6 +548,8 @@ def run(ctx):
         cases = corpus()
         for k in range(n):
             cases.append(gen_case(rng, ctx.tier))
+        for k in range(3 if ctx.tier == "quick" else 25):
+            cases.append(gen_stress(rng, ctx.tier))
     for k, c in enumerate(cases):
         c["id"] = k
     # run the harness in a few chunks (each case costs its timeouts)
@@ -482,25 +558,51 @@ def run(ctx):
     if rc != 0 or len(byid) != len(cases):
         ctx.breaks.append({"what": "harness c07 failed (rc=%d, %d/%d results)" % (rc, len(byid), len(cases)), "detail": err[-2000:]})
         return
-    dist = {"api": 0, "ctx": 0, "timeouts": 0, "commits": 0, "aborts": 0, "persist_vars": 0, "steps": 0, "gets": 0}
+    # outcomes that depend on load (timeout on a free lock, missed deadline) : re-run those cases once, alone
+    retry = [c for c in cases if c["mode"] != "stress" and not (byid[c["id"]].get("err") or "").startswith("not run")
+             and anomalies(c, byid[c["id"]]) > 0]
+    retried = 0
+    if retry and len(retry) <= 40:
+        rc2, res2, err2 = vlib.run_jsonl("c07", [expand_for_harness(c) for c in retry], timeout=900)
+        for r in res2:
+            byid[r["id"]] = r; retried += 1
+    ctx.extra["retried_after_load_dependent_outcome"] = retried
+    dist = {"api": 0, "ctx": 0, "stress": 0, "stress_commits": 0, "stress_attempts": 0, "timeouts": 0, "commits": 0, "aborts": 0, "persist_vars": 0, "steps": 0, "gets": 0}
     for c in cases:
         o = byid[c["id"]]
         c["_out"] = o
+        if (o.get("err") or "").startswith("not run"):
+            c["_skipped"] = True
+            dist["not_run_after_hangs"] = dist.get("not_run_after_hangs", 0) + 1
+            continue
         dist[c["mode"]] += 1
+        if c["mode"] == "stress":
+            c["_skipped"] = True   # no model comparison: concurrent run, search aid only
+            dist["stress_commits"] += sum(o.get("commits") or [])
+            dist["stress_attempts"] += sum(o.get("attempts") or [])
+            ctx.add_case(json.dumps([c["mode"], c["nsh"], c["vars"], c["iters"], c["seed"]]), True)
+            for sig, what in oracle_stress(c, o):
+                ctx.failures.append({"signature": sig, "what": what, "case": strip(c), "obs": o})
+            continue
         dist["steps"] += len(c["ops"])
+        if anomalies(c, o) > 0:
+            dist["load_dependent_after_retry"] = dist.get("load_dependent_after_retry", 0) + 1
         dist["timeouts"] += sum(1 for r in o.get("res") or [] if r["st"] == "timeout")
         dist["commits"] += sum(1 for op in c["ops"] if op[0] in ("cstart", "commit"))
         dist["aborts"] += sum(1 for op in c["ops"] if op[0] in ("astart", "abort"))
         dist["gets"] += sum(1 for op in c["ops"] if op[0] == "get")
         dist["persist_vars"] += sum(1 for v in c["vars"] if v.get("persist"))
         ctx.add_case(json.dumps([c["mode"], c["nsh"], c["vars"], c["ops"]]), nontrivial(c, o))
-        if o.get("err"):
+        if o.get("err") and o.get("err") != "hang":
             ctx.breaks.append({"what": "harness reported an error on a case: " + o["err"][:200], "case": strip(c), "impl": o})
         for sig, what in oracle(c, o):
             ctx.failures.append({"signature": sig, "what": what, "case": strip(c), "obs": o})
     ctx.extra["input_distribution"] = dist
     ctx.samples = [{"mode": c["mode"], "nsh": c["nsh"], "vars": c["vars"], "ops": c["ops"][:16],
-                    "impl": [(r["st"], r.get("v")) for r in (c["_out"].get("res") or [])[:16]]} for c in cases[:4]]
+                    "impl": [(r["st"], r.get("v")) for r in (c["_out"].get("res") or [])[:16]]}
+                   for c in cases[:40] if c["mode"] != "stress" and not c.get("_skipped")][:4]
+    if dist.get("not_run_after_hangs"):
+        ctx.breaks.append({"what": "%d cases not run because earlier cases blocked forever" % dist["not_run_after_hangs"]})
     # tie B: the model, evaluated inside Coq, must accept the implementation's observations step by step
     if ctx.coq_ok:
         shard = 400
@@ -509,6 +611,9 @@ def run(ctx):
             items = []
             probs = {}
             for k, c in enumerate(part):
+                if c.get("_skipped"):
+                    items.append("([], [])")
+                    continue
                 evs, prob = to_events(c, c["_out"])
                 if prob:
                     probs[k] = prob
@@ -530,7 +635,7 @@ def run(ctx):
     if ctx.replay:
         c = cases[0]
         print("replay: impl results", json.dumps(c["_out"]))
-        print("replay: oracle", oracle(c, c["_out"]), "correspondence breaks", len(ctx.breaks))
+        print("replay: oracle", (oracle_stress if c["mode"] == "stress" else oracle)(c, c["_out"]), "correspondence breaks", len(ctx.breaks))
 
 
 MANIFEST = {
